@@ -206,6 +206,7 @@ def coq_properties(ctx, pid=None, extra_targets=()):
             if fn.endswith('.v'):
                 src = open(os.path.join(root, fn)).read()
                 src_nc = re.sub(r'\(\*.*?\*\)', '', src, flags=re.S)
+                src_nc = re.sub(r'"[^"]*"', '""', src_nc)   # string literals cannot declare anything
                 for m in FORBIDDEN.finditer(src_nc):
                     bad.append('%s: %s' % (os.path.relpath(os.path.join(root, fn), VERIF), m.group(0)))
                 if re.search(r'^\s*(Variable|Hypothesis|Variables|Hypotheses)\b', src_nc, re.M) and not re.search(r'^\s*Section\b', src_nc, re.M):
